@@ -50,6 +50,13 @@ def opsAsm (op : String) (j : Json) : Option (Except String Json) :=
                    ("rootId", optJson (rootId n)), ("frame", nodeToJson (frame n)),
                    ("text", if getBoolD j "wantText" false then jstr text else Json.null)])
       | none => pure (Json.mkObj [("ok", false)])
+  | "xml.validdoc" => some do
+      -- the model of validate_xml_document on a DOM tree, and what the XML spec says about the same tree
+      let n ← nodeOfJson (← j.getObjVal? "tree")
+      pure (Json.mkObj [("valid", validDoc [] n), ("bound", prefixesBound [] n), ("declsOk", declsOk n)])
+  | "xml.isname" => some do
+      let s ← getStr j "s"
+      pure (Json.mkObj [("isName", isName s), ("isQName", isQName s), ("isXmlTag", Pyxv.Rows.isXmlTag s)])
   | "asm.nsmap" => some do
       let f ← fieldsOfJson (← j.getObjVal? "fields")
       pure (pairsToJson (getNsmap f))
